@@ -145,7 +145,7 @@ class Ctx:
 
     # -- feasibility ---------------------------------------------------------------
     def _relevant_path(self, extra, want_model):
-        """the path condition without the definitions r >= 0 /\ r*r == X of square-root variables that occur nowhere
+        """the path condition without the definitions (r >= 0 and r*r == X) of square-root variables that occur nowhere
         else in the query: such a definition is satisfiable whatever the other variables are (X is a sum of squares
         or was tested non-negative), so dropping it does not change the answer -- and nlsat is spared the variable"""
         defs = getattr(self, "sqrt_defs", None)
